@@ -245,6 +245,28 @@ def handle : List String → String
   | ["edenc", e, salt, iter] => match parseHex e, parseHex salt, parseNat iter with
     | some e, some salt, some iter => if salt.length = 8 ∧ iter < W then showR toHex (bpkiEdataEnc e salt iter) else "invalid"
     | _, _, _ => "bad-op"
+  | ["bpdec", x] => match parseHex x with
+    | some x =>
+      match bignParamsDec x with
+      | .ok st =>
+        match st.outs, st.nums with
+        | [p, a, b, seed, yG, q], [len] =>
+          s!"{len * 4} {toHex p} {toHex a} {toHex b} {toHex q} {toHex yG} {toHex seed} {b01 (bignIsOperable p a b q)}"
+        | _, _ => "model-shape"
+      | .err => "err:306"
+      | .oob => "OOB"
+    | none => "bad-op"
+  | ["bpenc", l, p, a, b, q, yG, seed] =>
+    match parseNat l, parseHex p, parseHex a, parseHex b, parseHex q, parseHex yG, parseHex seed with
+    | some l, some p, some a, some b, some q, some yG, some seed =>
+      if (l = 128 ∨ l = 192 ∨ l = 256) ∧ p.length = l / 4 ∧ a.length = l / 4 ∧ b.length = l / 4 ∧ q.length = l / 4 ∧
+          yG.length = l / 4 ∧ seed.length = 8 then
+        match bignParamsEncI p a b q yG seed with
+        | .ok e => s!"{toHex e} {if bignIsOperable p a b q then "pub-ok" else "pub-refuses"}"
+        | .err => "err"
+        | .oob => "OOB"
+      else "invalid"
+    | _, _, _, _, _, _, _ => "bad-op"
   | _ => "bad-op"
 
 end Bee2V.C08.Drv
